@@ -1,5 +1,5 @@
 (* Props_C12.v — C12: a probe succeeds only on genuine evidence; indirect probing is routed correctly. *)
-From Foca Require Import Laws MembersM ProbeM FocaM WireM L_Members L_MembersInv Inv L_Wire L_Probe L_RoundEnd L_IndirectStage L_RoundSuspect L_Evidence L_Abort.
+From Foca Require Import Laws MembersM ProbeM FocaM WireM L_Members L_MembersInv Inv L_Wire L_Probe L_RoundEnd L_IndirectStage L_RoundSuspect L_Evidence L_Abort Concrete.
 From Coq Require Import Permutation.
 
 Section C12.
@@ -260,6 +260,21 @@ Qed.
 
 End C12.
 
+(* non-vacuity: a connected instance with an open round (a member is being probed, no evidence yet); an identity
+   change abandons it *)
+Definition ex12_cfg : config := mkConfig 1500000000 500000000 3 10 3000000000 86400000000000 1400 false None None None.
+Definition ex12_o : oracle := fun _ r => match r with RShuffle _ => [0; 1; 2; 3] | RChoose _ => [0] | RRange _ => [0] | RTie _ _ => [] end.
+Definition ex12_f0 : @foca cid N cid_handler := foca_init (mkCid 1 0 0 0) ex12_cfg (mkChst 0 255 []).
+Definition ex12_f : @foca cid N cid_handler :=
+  fst (fst (fst (step ex12_o ex12_f0 (IApplyMany [mkMember (mkCid 2 0 0 0) 0 Alive; mkMember (mkCid 3 0 0 0) 0 Alive] false)))).
+Definition ex12_f1 : @foca cid N cid_handler :=
+  fst (fst (fst (step ex12_o ex12_f (ITimer (TProbeRandomMember (token ex12_f)))))).
+Example C12_abort_example :
+  p_direct (prb ex12_f1) <> None /\ probe_succeeded (prb ex12_f1) = false
+  /\ (let '(f', _, r, _) := step ex12_o ex12_f1 (IChangeIdentity (mkCid 1 1 0 0)) in
+      r = Done /\ p_direct (prb f') = None /\ conn f' = Disconnected /\ identity f' = mkCid 1 1 0 0).
+Proof. vm_compute. repeat split; auto; discriminate. Qed.
+
 Print Assumptions C12_direct_evidence.
 Print Assumptions C12_indirect_evidence.
 Print Assumptions C12_reset.
@@ -290,3 +305,4 @@ Print Assumptions C12_not_connected_means_no_open_round_along_histories.
 Print Assumptions C12_no_abort_meaning.
 Print Assumptions C12_identity_change_abandons_round.
 Print Assumptions C12_first_round_after_an_abort_is_quiet.
+Print Assumptions C12_abort_example.
